@@ -14,6 +14,21 @@ CLAIMED = {
     "C03": ("property-based differential testing: generated litmus programs run under loom vs brute-force axiomatic RC11 enumeration (may-appear set U)",
             "Bounded generated-program exploration: every outcome loom produces for a generated program must be allowed by the weakest reading (SeqCst accesses as AcqRel, C++20 release sequences) of an independent RC11 enumerator. Sound by construction (never flags what C11/C++20/RC11 disagree on); complete only within the generated bounds.",
             "Trusts the R-AX enumerator; forbidden outcomes on programs in classes K7a/K7b (recorded findings F7a, F7b) are attributed to those findings.", "4/C03"),
+    "C01": ("property-based differential testing: generated programs over all loom primitives run under loom vs an exhaustive interleaving reference (R-SC); set inclusion SC subset-of L plus trace validation",
+            "Bounded generated-program exploration: for each generated program (<=4 threads, <=8 operations, ten families) every result some interleaving of the reference produces (values, deadlock, leak) must be produced by a loom iteration; for programs without atomics the sets must be equal and every iteration's op log must replay on the reference machines.",
+            "Trusts R-SC (harness/src/refsc.rs). Programs inside the classes of recorded findings (F9 try-ops, F2/F2b channel emptiness, F5a-e park/unpark) are evaluated but a failure of the finding's kind is attributed to it.", "4/C01"),
+    "C05": ("property-based differential testing: deadlock reachability in the R-SC interleaving reference vs loom's deadlock report",
+            "Bounded generated-program exploration over blocking primitives: the model run must panic with `deadlock` iff the reference reaches a state with an unfinished thread and no enabled thread; the partial trace at the report must replay to a reference deadlock state; no other panic may occur.",
+            "Trusts R-SC blocking semantics; findings F5a/F5d/F5e (park token), F2/F2b, F9 attributed by class.", "4/C05"),
+    "C07": ("property-based testing: trace validation of every loom iteration on a reference lock machine + L == SC + race verdicts from reference vector clocks",
+            "Bounded generated-program exploration over <=2 mutexes and an rwlock with try-operations and cells inside/outside critical sections: exclusion, reader/writer compatibility, blocking, try_* exactness, protected values and hand-over happens-before (via loom's own race detector, both directions) are checked on every iteration.",
+            "Trusts R-SC; F9 (try_* never observes a held lock across threads) and F11 (writes under read guards) attributed by class.", "4/C07"),
+    "C08": ("property-based testing: trace validation on reference wait/notify machines + L == SC incl. deadlock verdicts + race verdicts for notifier->waiter hand-over",
+            "Bounded generated-program exploration over Condvar, Notify, park/unpark and join (early/late/double notifications, 1-2 waiters): a lost wake-up shows as a spurious deadlock, an extra wake-up as an impossible outcome or invalid trace, a missing happens-before edge as a false race report.",
+            "Trusts R-SC; the F5 family (park token conflated with internal wake-ups, park/unpark no scheduling points) attributed by class.", "4/C08"),
+    "C09": ("property-based testing: trace validation on a reference FIFO queue + L == SC + leak/deadlock/race verdicts",
+            "Bounded generated-program exploration with 1-3 senders and a receiver: exactly-once in-order delivery, blocking recv, try_recv exactness, `Messages leaked` iff messages remain, send->recv happens-before (cells handed over through messages).",
+            "Trusts R-SC; F2 (try_recv never races a send) and F2b (receiver drop not a scheduling point) attributed by class.", "4/C09"),
     "C12": ("property-based differential testing against std atomics (random op sequences + exhaustive 8-bit operand sub-domain)",
             "Generated single-threaded operation sequences on every loom atomic type are executed on the loom atomic inside loom::model and on the std atomic; all results and final contents must agree. Exhaustive for u8/i8 binary RMWs over all 256x256 operand pairs; sampled (boundary-biased) for wider types.",
             "std atomics are the reference; compare_exchange_weak is compared with the strong std operation (loom documents no spurious failure).", "4/C12"),
